@@ -189,6 +189,52 @@ ReadHttp(t) ==
 
 Read(t) == IF t # <<>> /\ t[1] \in 65..90 THEN ReadHttp(t) ELSE ReadIso(t)
 
+-------------------------------------------------------------------------------
+(* format-driven reading, Date(str, fmt): in fmt the letters Y M D h m s stand for a number (a run of digits), '?' for
+   any one character, every other character for itself.  The spec vouches for the result only when the whole text
+   matches the whole format, every number has 1..9 digits, year, month and day are given and all fields are valid
+   (absent time fields are 0); the result is then that date-time in the local zone (the harness runs with TZ=UTC).
+   Everything else - in particular a text that ends before the format does - may give any value, but must be read in
+   bounds: PatWildcardPastEnd marks the texts on which a '?' has to match beyond the end of the text and more format
+   follows (hazard PatternWildcardPastEnd: the code used to step over the terminating NUL there).                 *)
+cQuestion == 63
+FieldIndex(ch) == CASE ch = 89 -> 1 [] ch = 77 -> 2 [] ch = 68 -> 3 [] ch = 104 -> 4 [] ch = 109 -> 5 [] ch = 115 -> 6 [] OTHER -> 0
+RECURSIVE PatWalk(_, _, _, _, _)
+PatWalk(t, f, pt, pf, fld) ==
+    IF pf > Len(f) THEN [ok |-> pt = Len(t) + 1, fld |-> fld]
+    ELSE LET k == FieldIndex(f[pf]) IN
+         IF k > 0 THEN LET n == DigitRun(t, pt) IN
+                       IF n \notin 1..9 THEN [ok |-> FALSE, fld |-> fld]
+                       ELSE PatWalk(t, f, pt + n, pf + 1, [fld EXCEPT ![k] = NumAt(t, pt, n)])
+         ELSE IF pt > Len(t) THEN [ok |-> FALSE, fld |-> fld]
+         ELSE IF f[pf] = cQuestion \/ t[pt] = f[pf] THEN PatWalk(t, f, pt + 1, pf + 1, fld)
+         ELSE [ok |-> FALSE, fld |-> fld]
+ReadPattern(t, f) ==
+    LET w == PatWalk(t, f, 1, 1, <<-1, -1, -1, 0, 0, 0>>) g == w.fld IN
+    IF w.ok /\ g[1] >= 0 /\ g[2] >= 0 /\ g[3] >= 0 /\ ValidDate(g[1], g[2], g[3]) /\ g[4] \in 0..23 /\ g[5] \in 0..59 /\ g[6] \in 0..59
+    THEN [ok |-> TRUE, i |-> InstantOf(g[1], g[2], g[3], g[4], g[5], g[6])]
+    ELSE NoRead
+\* the walk the code performs (numbers may be empty, a literal that does not match stops it)
+RECURSIVE PatPastEnd(_, _, _, _)
+PatPastEnd(t, f, pt, pf) ==
+    IF pf > Len(f) THEN FALSE
+    ELSE IF FieldIndex(f[pf]) > 0 THEN PatPastEnd(t, f, pt + DigitRun(t, pt), pf + 1)
+    ELSE IF pt > Len(t) THEN f[pf] = cQuestion /\ pf < Len(f)
+    ELSE IF f[pf] = cQuestion \/ t[pt] = f[pf] THEN PatPastEnd(t, f, pt + 1, pf + 1)
+    ELSE FALSE
+PatWildcardPastEnd(t, f) == PatPastEnd(t, f, 1, 1)
+\* a text for format f showing the fields fld (<<y, m, d, h, mi, s>>): numbers zero-padded or not, '?' shown as filler
+RECURSIVE Unpadded(_)
+Unpadded(n) == IF n < 10 THEN <<Dg(n)>> ELSE Unpadded(n \div 10) \o <<Dg(n % 10)>>
+RECURSIVE PatTextFrom(_, _, _, _, _)
+PatTextFrom(f, pf, fld, padded, filler) ==
+    IF pf > Len(f) THEN <<>>
+    ELSE LET k == FieldIndex(f[pf]) IN
+         (IF k > 0 THEN (IF ~padded THEN Unpadded(fld[k]) ELSE IF k = 1 THEN Pad4(fld[k]) ELSE Pad2(fld[k]))
+          ELSE IF f[pf] = cQuestion THEN <<filler>> ELSE <<f[pf]>>)
+         \o PatTextFrom(f, pf + 1, fld, padded, filler)
+PatText(f, fld, padded, filler) == PatTextFrom(f, 1, fld, padded, filler)
+
 \* text of a zone offset (minutes east of UTC) in the three lexical variants; "hh" only for whole hours
 ZoneText(z, variant) ==
     LET a == IF z < 0 THEN -z ELSE z  sign == IF z < 0 THEN cDash ELSE cPlus IN
